@@ -202,9 +202,9 @@ theorem run_challenge (s : σ) (c : Client) (a : Nat) (sup : List (List Nat)) (Q
 include hmd5 conf rel in
 theorem run_activate (s : σ) (c : Client) (a : Nat) (Q : σ → Prop) (k : Nat) (hk : k ≤ cfg.maxRetries)
     (hl : LossRun P lostAt Q k s) (hph : (π s).phase = .challenged a) (ha : a = 0 ∨ a = 4 ∨ a = 2)
-    (hca : c.s.auth = a) (hcp : c.s.pw = cfg.pw) (hcq : c.s.seq < 4294967296) :
+    (hca : c.s.auth = a) (hcp : c.s.pw = cfg.pw) (hcq : c.s.seq = 0) (hci : c.s.activated = false) :
     ∃ ds s', ds.length = k + 1 ∧
-      (∀ d ∈ ds, (∃ p, parseLan d = some p ∧ p.auth = a ∧ p.sid = b.tempSid ∧ codeOk md5 cfg.pw p = true) ∧
+      (∀ d ∈ ds, (∃ p, parseLan d = some p ∧ p.auth = a ∧ p.sid = b.tempSid ∧ p.seq = 0 ∧ codeOk md5 cfg.pw p = true) ∧
         Carries d 58 ([a, cfg.priv] ++ b.challenge ++ leBytes 4 cfg.outSeq)) ∧
       π s' = { π s with phase := .active a none, outSeq := nextSeq cfg.outSeq } ∧ Q s' ∧
       ∀ sent, estabActivate md5 P cfg sent s c [leBytes 4 b.tempSid, b.challenge] =
@@ -216,7 +216,7 @@ theorem run_activate (s : σ) (c : Client) (a : Nat) (Q : σ → Prop) (k : Nat)
     (0 :: ([a] ++ leBytes 4 b.sid ++ leBytes 4 b.inSeq0 ++ [b.priv])) (π s)
     { π s with phase := .active a none, outSeq := nextSeq cfg.outSeq }
     (Activating b cfg a ((c.rqSeq + 1) % 64))
-    (fun d => (∃ p, parseLan d = some p ∧ p.auth = a ∧ p.sid = b.tempSid ∧ codeOk md5 cfg.pw p = true) ∧
+    (fun d => (∃ p, parseLan d = some p ∧ p.auth = a ∧ p.sid = b.tempSid ∧ p.seq = 0 ∧ codeOk md5 cfg.pw p = true) ∧
         Carries d 58 ([a, cfg.priv] ++ b.challenge ++ leBytes 4 cfg.outSeq))
     (by
       intro c' hc'
@@ -224,11 +224,11 @@ theorem run_activate (s : σ) (c : Client) (a : Nat) (Q : σ → Prop) (k : Nat)
         (bmcHdr_hdrOf cfg c 58 conf.rsSa) ha hph hc'
       exact ⟨d, r, c'', g1, g2, ⟨g3, g4⟩, g5, g6, g7⟩)
     Q k (cfg.maxRetries + 1) s ⟨true, ⟨a, b.tempSid, c.s.seq, c.s.activated, cfg.pw⟩, (c.rqSeq + 1) % 64⟩ (by omega) rfl
-    ⟨rfl, rfl, rfl, rfl, hcq, rfl⟩ hl
+    ⟨rfl, rfl, rfl, rfl, hcq, hci, rfl⟩ hl
   refine ⟨ds, s', h2, h3, h5, h6, ?_⟩
   intro sent
   obtain ⟨at', ⟨a', sid', seq', act', pw'⟩, q'⟩ := c'
-  obtain ⟨e1, e2, _, e4, _, e6⟩ := h4
+  obtain ⟨e1, e2, _, e4, _, _, e6⟩ := h4
   simp only at e1 e2 e4 e6
   subst e1 e2 e4 e6
   simp only [hdrOf] at h1
@@ -353,6 +353,37 @@ end stages
 
 /-! ### the whole handshake, the whole life cycle -/
 
+/-- Nothing of an earlier session enters the handshake: `establish_session` clears the session
+object itself (`resetSession`, intended), or the object happens to be clean (a new `Session()`,
+which is all the pinned tree can cope with). -/
+def Fresh (cfg : Cfg) (c0 : Client) : Prop :=
+  cfg.resetSession = true ∨ (c0.s.seq = 0 ∧ c0.s.activated = false)
+
+theorem resetSess_pw (cfg : Cfg) (c0 : Client) : (resetSess cfg c0).s.pw = c0.s.pw := by
+  unfold resetSess; split <;> rfl
+
+theorem resetSess_rqSeq (cfg : Cfg) (c0 : Client) : (resetSess cfg c0).rqSeq = c0.rqSeq := by
+  unfold resetSess; split <;> rfl
+
+theorem resetSess_auth (cfg : Cfg) (c0 : Client) : (resetSess cfg c0).s.auth = c0.s.auth := by
+  unfold resetSess; split <;> rfl
+
+theorem resetSess_fresh {cfg : Cfg} {c0 : Client} (h : Fresh cfg c0) :
+    (resetSess cfg c0).s.seq = 0 ∧ (resetSess cfg c0).s.activated = false := by
+  unfold resetSess
+  rcases h with h | h
+  · simp [h]
+  · split
+    · exact ⟨rfl, rfl⟩
+    · exact h
+
+theorem resetSess_of_true {cfg : Cfg} (h : cfg.resetSession = true) (c0 : Client) :
+    resetSess cfg c0 = { c0 with s := { c0.s with sid := 0, seq := 0, activated := false } } := by
+  simp [resetSess, h]
+
+theorem resetSess_of_false {cfg : Cfg} (h : cfg.resetSession = false) (c0 : Client) : resetSess cfg c0 = c0 := by
+  simp [resetSess, h]
+
 /-- What a successful handshake put on the wire, step by step (`ds1` … `ds4`: the datagrams of
 Get Channel Authentication Capabilities, Get Session Challenge, Activate Session and Set Session
 Privilege Level, retransmissions included; at most `R + 1` each). -/
@@ -366,7 +397,7 @@ structure Handshake (md5 : List Nat → List Nat) (b : BmcCfg) (cfg : Cfg) (R a 
   len4 : 1 ≤ ds4.length ∧ ds4.length ≤ R + 1
   authCap : ∀ d ∈ ds1, OutsideSession d ∧ Carries d 56 [0x0e, cfg.priv]
   challenge : ∀ d ∈ ds2, OutsideSession d ∧ Carries d 57 (a :: pad16 cfg.user)
-  activate : ∀ d ∈ ds3, (∃ p, parseLan d = some p ∧ p.auth = a ∧ p.sid = b.tempSid ∧ codeOk md5 cfg.pw p = true) ∧
+  activate : ∀ d ∈ ds3, (∃ p, parseLan d = some p ∧ p.auth = a ∧ p.sid = b.tempSid ∧ p.seq = 0 ∧ codeOk md5 cfg.pw p = true) ∧
     Carries d 58 ([a, cfg.priv] ++ b.challenge ++ leBytes 4 cfg.outSeq)
   setPrivChain : Chain md5 cfg.pw a b.sid b.inSeq0 ds4
   setPriv : ∀ d ∈ ds4, Carries d 59 [cfg.priv]
@@ -381,13 +412,13 @@ theorem establish_run (R : Nat) (hR : R ≤ cfg.maxRetries) (m : Nat) (s0 : σ) 
     (hl0 : lostAt s0 = false)
     (hw : ∀ d, Within P lostAt R (4 + m) (P s0 d).1) (hph : (π s0).phase = .start)
     (hch : chooseAuth cfg.pref (b.caps % 64) = some a) (ha : a = 0 ∨ a = 4 ∨ a = 2) (hoff : offered b.caps a = true)
-    (hcp : c0.s.pw = cfg.pw) (hcq : c0.s.seq < 4294967296) :
-    ∃ ds1 ds2 ds3 ds4, Handshake md5 b cfg R a (establish md5 P cfg s0 c0).sent ds1 ds2 ds3 ds4 ∧
-      (establish md5 P cfg s0 c0).outcome = .ok [] ∧
-      Live b cfg a (some (seqAfter ds4.length b.inSeq0)) (π (establish md5 P cfg s0 c0).peer)
-        (establish md5 P cfg s0 c0).client ∧
-      (π (establish md5 P cfg s0 c0).peer).bad = (π s0).bad ∧
-      Within P lostAt R m (establish md5 P cfg s0 c0).peer := by
+    (hcp : c0.s.pw = cfg.pw) (hcq : c0.s.seq = 0) (hci : c0.s.activated = false) :
+    ∃ ds1 ds2 ds3 ds4, Handshake md5 b cfg R a (handshake md5 P cfg s0 c0).sent ds1 ds2 ds3 ds4 ∧
+      (handshake md5 P cfg s0 c0).outcome = .ok [] ∧
+      Live b cfg a (some (seqAfter ds4.length b.inSeq0)) (π (handshake md5 P cfg s0 c0).peer)
+        (handshake md5 P cfg s0 c0).client ∧
+      (π (handshake md5 P cfg s0 c0).peer).bad = (π s0).bad ∧
+      Within P lostAt R m (handshake md5 P cfg s0 c0).peer := by
   obtain ⟨p0, p1⟩ := run_ping rel s0 hl0 hph
   have hw0 := hw pingD
   have e4 : 4 + m = (3 + m) + 1 := by omega
@@ -406,7 +437,7 @@ theorem establish_run (R : Nat) (hR : R ≤ cfg.maxRetries) (m : Nat) (s0 : σ) 
   obtain ⟨k3, hk3, hl3⟩ := b4
   obtain ⟨ds3, s3, c1, c2, c3, c4, c5⟩ := run_activate hmd5 conf rel s2
     { attached := false, s := { c0.s with auth := a }, rqSeq := ((c0.rqSeq + 1) % 64 + 1) % 64 } a _ k3 (by omega) hl3
-    (by rw [b3]) ha rfl hcp hcq
+    (by rw [b3]) ha rfl hcp hcq hci
   have e1 : 1 + m = m + 1 := by omega
   rw [e1] at c4
   obtain ⟨k4, hk4, hl4⟩ := c4
@@ -414,12 +445,12 @@ theorem establish_run (R : Nat) (hR : R ≤ cfg.maxRetries) (m : Nat) (s0 : σ) 
       { attached := true, s := ⟨a, b.sid, b.inSeq0, true, cfg.pw⟩, rqSeq := (((c0.rqSeq + 1) % 64 + 1) % 64 + 1) % 64 } :=
     ⟨by rw [c3], by rw [c3]; exact nextSeq_lt _ conf.outSeqLt, rfl, rfl, rfl, rfl, rfl, rfl, conf.inSeq⟩
   obtain ⟨ds4, s4, d1, d2, d3, d4, d5, d6, d7⟩ := run_setPriv hmd5 conf rel s3 _ a _ k4 (by omega) hl4 ha live3
-  have hest : establish md5 P cfg s0 c0 =
+  have hest : handshake md5 P cfg s0 c0 =
       ⟨s4, { attached := true, s := ⟨a, b.sid, seqAfter (k4 + 1) b.inSeq0, true, cfg.pw⟩,
              rqSeq := ((((c0.rqSeq + 1) % 64 + 1) % 64 + 1) % 64 + 1) % 64 },
        tagAll .ping [pingD] ++ tagAll .authCap ds1 ++ tagAll .challenge ds2 ++ tagAll .activate ds3 ++
          tagAll .setPriv ds4, .ok []⟩ := by
-    simp only [establish, p0]
+    simp only [handshake, p0]
     rw [a5, b5, c5, d7]
   refine ⟨ds1, ds2, ds3, ds4, ?_, by rw [hest], ?_, ?_, ?_⟩
   · refine ⟨?_, ⟨by omega, by omega⟩, ⟨by omega, by omega⟩, ⟨by omega, by omega⟩, ⟨by omega, by omega⟩, a2, b2, c2, d2, d3⟩
@@ -439,7 +470,7 @@ theorem lifecycle_run (R : Nat) (hR : R ≤ cfg.maxRetries) (n : Nat) (s0 : σ) 
     (hl0 : lostAt s0 = false)
     (hw : ∀ d, Within P lostAt R (n + 5) (P s0 d).1) (hph : (π s0).phase = .start)
     (hch : chooseAuth cfg.pref (b.caps % 64) = some a) (ha : a = 0 ∨ a = 4 ∨ a = 2) (hoff : offered b.caps a = true)
-    (hcp : c0.s.pw = cfg.pw) (hcq : c0.s.seq < 4294967296) :
+    (hcp : c0.s.pw = cfg.pw) (hfr : Fresh cfg c0) :
     ∃ hs ds1 ds2 ds3 ds4 dsr dsc, Handshake md5 b cfg R a hs ds1 ds2 ds3 ds4 ∧
       (lifecycle md5 P cfg n s0 c0).sent = hs ++ tagAll .request dsr ++ tagAll .close dsc ∧
       (lifecycle md5 P cfg n s0 c0).outcome = .ok [] ∧
@@ -454,18 +485,18 @@ theorem lifecycle_run (R : Nat) (hR : R ≤ cfg.maxRetries) (n : Nat) (s0 : σ) 
     intro d
     have e : 4 + (n + 1) = n + 5 := by omega
     rw [e]; exact hw d
-  obtain ⟨ds1, ds2, ds3, ds4, e1, e2, e3, e4, e5⟩ := establish_run hmd5 conf rel R hR (n + 1) s0 c0 a hl0 hw' hph hch ha
-    hoff hcp hcq
+  obtain ⟨ds1, ds2, ds3, ds4, e1, e2, e3, e4, e5⟩ := establish_run hmd5 conf rel R hR (n + 1) s0 (resetSess cfg c0) a hl0
+    hw' hph hch ha hoff (by rw [resetSess_pw]; exact hcp) (resetSess_fresh hfr).1 (resetSess_fresh hfr).2
   obtain ⟨dsr, r1, r2, r3, r4, r5, r6, r7, r8, r9⟩ := run_requestN hmd5 conf rel R hR a ha 1 n
-    (establish md5 P cfg s0 c0).peer (establish md5 P cfg s0 c0).client _ e5 e3
+    (handshake md5 P cfg s0 (resetSess cfg c0)).peer (handshake md5 P cfg s0 (resetSess cfg c0)).client _ e5 e3
   obtain ⟨k, hk, hl⟩ := r7
   obtain ⟨dsc, s', q1, q2, q3, _, q5, q6, q7⟩ := run_close hmd5 conf rel _ _ a _ _ k (by omega) hl ha r8
   refine ⟨_, ds1, ds2, ds3, ds4, dsr, dsc, e1, ?_, ?_, ?_, ?_, ?_, ?_, ⟨r1, r2⟩, ⟨by omega, by omega⟩, r4, q3⟩
-  · simp only [lifecycle, e2, r6, q7, r5]
-  · simp only [lifecycle, e2, r6, q7]
-  · simp only [lifecycle, e2, r6, q7]; exact q5
-  · simp only [lifecycle, e2, r6, q7]; rw [q6, r9, e4]
-  · simp only [lifecycle, e2, r6, q7]
+  · simp only [lifecycle, establish, e2, r6, q7, r5]
+  · simp only [lifecycle, establish, e2, r6, q7]
+  · simp only [lifecycle, establish, e2, r6, q7]; exact q5
+  · simp only [lifecycle, establish, e2, r6, q7]; rw [q6, r9, e4]
+  · simp only [lifecycle, establish, e2, r6, q7]
   · rw [List.append_assoc]
     exact Chain.append e1.setPrivChain (Chain.append r3 q2)
 
